@@ -87,7 +87,7 @@ KeepShadow == UNCHANGED <<svc, pend, ek, gh>>
 \* ---- shadow plumbing ------------------------------------------------------------------------
 \* the model decided the result r of p's call: linearize if the abstract object can produce r now
 Decide(p, r) ==
-    LET cand == {o \in Outcomes(p) : o.r = r} IN
+    LET cand == {o \in Outcomes(p) : o.r = r /\ Obliged(p, o)} IN
     /\ IF pend[p].st = "called" /\ cand # {}
        THEN LinWith(p, CHOOSE o \in cand : TRUE)
        ELSE KeepShadow
@@ -316,6 +316,8 @@ Return(p) ==
                   ELSE pend' = [pend EXCEPT ![p] = IdleRec] /\ UNCHANGED <<svc, ek, gh>> /\ bad' = TRUE
              ELSE IF Transient(a, r, 0, pend[p].ov)
                   THEN RetTransient(p, a, r, 0) /\ bad' = bad
+                  ELSE IF KnownDeviationGuard(p, a, r)
+                  THEN RetKnownDeviation(p, a, r) /\ bad' = bad
                   ELSE pend' = [pend EXCEPT ![p] = IdleRec] /\ UNCHANGED <<svc, ek, gh>> /\ bad' = TRUE
 
 \* ---- behaviour -------------------------------------------------------------------------------------
